@@ -104,3 +104,62 @@ def seeded_runs(pid: str, repo: str, jobs: int = 8):
         finally:
             shutil.rmtree(d, ignore_errors=True)
     return out
+
+
+def refactor_runs(pid: str, repo: str):
+    """behaviour-preserving refactorings written independently (kept under /verif/refactors/<R>/patch.diff, each verified
+    against the test suite and a differential harness when it was collected): the check must not report a violation on
+    any of them.  `silent` (exit 0) is the goal; `unmodelled` (exit 2: the checker says it cannot decide the refactored
+    form) is tolerated and listed; exit 1 is a false alarm and fails the self-test."""
+    root = os.path.join(VERIF, "refactors")
+    out = []
+    if not os.path.isdir(root):
+        return out
+    names = [n for n in sorted(os.listdir(root)) if os.path.exists(os.path.join(root, n, "patch.diff"))]
+
+    def one(name):
+        pp = os.path.join(root, name, "patch.diff")
+        d = tempfile.mkdtemp(prefix="pstref.")
+        try:
+            shutil.copytree(os.path.join(repo, "persim"), os.path.join(d, "persim"), ignore=shutil.ignore_patterns("__pycache__"))
+            pr = subprocess.run(["patch", "-p1", "-s", "-d", d, "-i", pp], capture_output=True, text=True)
+            if pr.returncode != 0:
+                return dict(refactor=name, got="patch-does-not-apply")
+            r = subprocess.run([sys.executable, "-m", "pst.check", pid, "--repo", d, "--dry"], cwd=VERIF, capture_output=True,
+                               text=True, timeout=300)
+            first = ""
+            for ln in r.stdout.splitlines():
+                if " rule=" in ln or "ANALYSIS-ERROR" in ln:
+                    first = ln.strip()[:200]
+                    break
+            return dict(refactor=name, got={0: "silent", 1: "false-alarm", 2: "unmodelled"}.get(r.returncode, "error"), first=first)
+        finally:
+            shutil.rmtree(d, ignore_errors=True)
+    with ThreadPoolExecutor(max_workers=10) as ex:
+        return list(ex.map(one, names))
+
+
+if __name__ == "__main__":
+    # python -m pst.selftest.run C09 [repo]  — run all self-tests of one check without writing evidence
+    import json
+    pid_ = sys.argv[1].upper()
+    repo_ = sys.argv[2] if len(sys.argv) > 2 else "/repo"
+    bad = 0
+    for r_ in seeded_runs(pid_, repo_):
+        ok = r_["got"] == "refute" or not r_.get("primary", True)
+        bad += not ok
+        print("seeded  ", "ok " if ok else "BAD", r_)
+    n_ = neutral_run(pid_, repo_)
+    bad += n_["exit"] != 0
+    print("neutral ", "ok " if n_["exit"] == 0 else "BAD", n_)
+    for r_ in refactor_runs(pid_, repo_):
+        ok = r_["got"] in ("silent", "unmodelled", "patch-does-not-apply")
+        bad += not ok
+        print("refactor", "ok " if r_["got"] == "silent" else ("~~ " if ok else "BAD"), r_)
+    res_ = sensitivity(pid_, repo_)
+    miss = [r_ for r_ in res_ if r_["got"] != r_["expect"]]
+    bad += len([m for m in miss if m["got"] != "anchor-missing"])
+    print(f"corpus   {len(res_) - len(miss)}/{len(res_)} as expected")
+    for m in miss:
+        print("   MISMATCH", m)
+    sys.exit(1 if bad else 0)
